@@ -373,6 +373,10 @@ def check_coherence(sc, log):
                 dis = item_views_disagree(ci)
                 if dis:
                     return ("delta_views_disagree", "t=%d consumer %d on %s: %s" % (t, c["id"], w["shape"], dis)), stats
+                # the raw per-tick delta (delta_value()) and the canonical capture (capture_delta()) of one input name the same tick
+                dvv = ci.get("dv")
+                if isinstance(dvv, dict) and isinstance(d, dict) and shape in (coll.SHAPES["TSS"], coll.SHAPES["TSSStr"], coll.SHAPES["TSD"], coll.SHAPES["TSDStr"]) and canon(dvv) != canon(d):
+                    return ("delta_value_vs_capture", "t=%d consumer %d on %s: delta_value() reads %s, capture_delta() %s" % (t, c["id"], w["shape"], json.dumps(dvv), json.dumps(d))), stats
                 added, removed = keysets(shape, ci)
                 cur_keys = set(cur) if shape[0] == "TSS" else set(cur.keys())
                 if added & removed:
